@@ -130,7 +130,11 @@ func buildFixture() *fixture {
 		}
 	}
 	f.anon = [3][]byte{mc.Fill(seedBase, "anon-x", 32), mc.Fill(seedBase, "anon-y", 32), {}}
-	secrets := [3][]byte{scDRBG("client-A"), scLeadingZero("client-B"), sc(big.NewInt(1))}
+	// U, the client for which no request is ever verified, is -A: its public key has A's x
+	// coordinate and the other sign octet (an unrelated unverified client is B in every history
+	// of the two-client search that has not verified B yet)
+	secA := scDRBG("client-A")
+	secrets := [3][]byte{secA, scLeadingZero("client-B"), sc(new(big.Int).Sub(scalarN(), new(big.Int).SetBytes(secA)))}
 	for c := 0; c < 3; c++ {
 		cf := &f.cl[c]
 		cf.secret = secrets[c]
